@@ -122,4 +122,7 @@ InvIntended ==
   /\ Cardinality(I.thresholds) + Cardinality(I.quantiles) + Cardinality(I.members) + Cardinality(I.others) = Len(ColSets[g.colset])
   /\ (g.colset = 6 => I.others = {N_pop, N_px, N_e1x} /\ I.thresholds = {R(-1)})
   /\ (g.hasObs => \A c \in DOMAIN I.obs : IsNaN(I.obs[c]) \/ ((I.obs[c][1] \div I.obs[c][2]) % 1000) = Code(c[1], c[2], c[3]))
+\* ---- witnesses against vacuity (tools/vacuity.py) ----
+W_NoLeadingDigit == ~(g.colset = 8)
+W_MixedOrderThresholds == ~(g.colset = 9 /\ g.colorder # "id")
 =============================================================================
